@@ -7,7 +7,8 @@ from ..genrun import run_config
 
 RULE = ("each TLC state is one well-formed file (sequence of explicit segments); slices: structure (object lists in "
         "many orders over root/2 groups/3 channels), types (all 17x17 type pairs x layout x chunks x byte order), "
-        "properties (updates on any object, last write wins); non-trivial = at least one segment with raw data; "
+        "properties (updates on any object, last write wins), order x properties (which listed objects carry a "
+        "property); non-trivial = at least one segment with raw data; "
         "distinct = distinct abstract files")
 
 CONFIGS = {
@@ -15,11 +16,13 @@ CONFIGS = {
         ("MC_C01_struct", "MC_C01_struct.cfg", {"MaxSegs": 2, "NVals": "c_NValsQ"}, ["eager"], 4),
         ("MC_C01_types", "MC_C01_types.cfg", {"MaxSegs": 1}, ["eager", "lazy"], 1),
         ("MC_C01_props", "MC_C01_props.cfg", {"MaxSegs": 2, "MaxPropObjs": 1}, ["eager"], 3),
+        ("MC_C01_struct", "MC_C01_struct.cfg", {"MaxSegs": 2, "ObjLists": "c_ObjListsPQ", "PropNames": "c_PropNamesP", "PropVals": "c_PropValsP", "MaxPropObjs": 2, "NVals": "c_NValsP", "KVals": "c_KValsP"}, ["eager"], 4),
     ],
     "thorough": [
         ("MC_C01_struct", "MC_C01_struct.cfg", {"MaxSegs": 2}, ["eager", "lazy"], 4),
         ("MC_C01_types", "MC_C01_types.cfg", {"MaxSegs": 1}, ["eager", "lazy", "meta"], 1),
         ("MC_C01_props", "MC_C01_props.cfg", {"MaxSegs": 2, "MaxPropObjs": 2}, ["eager", "lazy", "meta"], 3),
+        ("MC_C01_struct", "MC_C01_struct.cfg", {"MaxSegs": 2, "ObjLists": "c_ObjListsP", "PropNames": "c_PropNamesP", "PropVals": "c_PropValsP", "MaxPropObjs": 3, "NVals": "c_NValsP", "KVals": "c_KValsP"}, ["eager", "lazy", "meta"], 4),
     ],
 }
 
